@@ -542,7 +542,7 @@ func (p *Parser) parseWhere(stmt *SelectStatement) error {
 
 	// Validate functions in WHERE condition. 分析函数调用（含 OVER）先替换为占位符，
 	// 避免 OVER 被误判为未知函数；stmt.Condition 保留原文，由 ToStreamConfig 提取。
-	whereCondition := strings.Join(conditions, " ")
+	whereCondition := strings.Join(lowerLogicalNot(conditions), " ")
 	if whereCondition != "" {
 		validated, _, _ := extractWhereAnalyticCalls(whereCondition)
 		validator := NewFunctionValidator(p.errorRecovery)
@@ -552,6 +552,26 @@ func (p *Parser) parseWhere(stmt *SelectStatement) error {
 
 	stmt.Condition = whereCondition
 	return nil
+}
+
+// lowerLogicalNot rewrites the SQL prefix operator NOT of a WHERE/HAVING token list to the "!" of the
+// expression language the condition is compiled with, like AND -> && and OR -> ||. Left as the bare
+// keyword, NOT ( a > 2 ) compiled as a call of an undefined function NOT and was false for every row.
+// The NOT of IS NOT NULL and NOT LIKE is kept: later preprocessing recognises those forms.
+func lowerLogicalNot(conditions []string) []string {
+	for i, c := range conditions {
+		if c != "NOT" {
+			continue
+		}
+		if i > 0 && conditions[i-1] == "IS" {
+			continue
+		}
+		if i+1 < len(conditions) && conditions[i+1] == "LIKE" {
+			continue
+		}
+		conditions[i] = "!"
+	}
+	return conditions
 }
 
 func (p *Parser) parseWindowFunction(stmt *SelectStatement, winType string) error {
@@ -1568,7 +1588,7 @@ func (p *Parser) parseHaving(stmt *SelectStatement) error {
 	}
 
 	// Validate functions in HAVING condition
-	havingCondition := strings.Join(conditions, " ")
+	havingCondition := strings.Join(lowerLogicalNot(conditions), " ")
 	if havingCondition != "" {
 		validator := NewFunctionValidator(p.errorRecovery)
 		pos, _, _ := p.lexer.GetPosition()
